@@ -622,6 +622,13 @@ func (p *packerV4) pack(options ...*bgp.MarshallingOption) []*bgp.BGPMessage {
 
 	loop := func(attrsLen int, paths []*Path, cb func([]bgp.PathNLRI)) {
 		max := maxNLRIs(attrsLen)
+		if max < 1 {
+			// The attributes alone (nearly) fill the message. Emit one NLRI per
+			// message, as packerMP does, so that an oversize route is rejected
+			// and logged at serialization instead of vanishing here (max == 0)
+			// or panicking in make() (max < 0).
+			max = 1
+		}
 		var nlris []bgp.PathNLRI
 		for {
 			nlris, paths = split(max, paths)
